@@ -22,6 +22,10 @@ from jasm.global_definitions import (  # noqa: E402
 from jasm.match import MasterOfPuppets  # noqa: E402
 from jasm.jasm_regex.yaml2regex import Yaml2Regex  # noqa: E402
 
+import logging as _logging
+
+_logging.getLogger("jasm.logging_config").addHandler(_logging.NullHandler())  # keep JASM's error logging off the checks' stderr
+
 RM = {
     "list": MatchingReturnMode.matched_addrs_list,
     "bool": MatchingReturnMode.bool,
